@@ -51,6 +51,10 @@ class FakePool:
         self.closed += 1
         self.order.append("close")
 
+    def terminate(self):  # stopping the workers is closing the pool as far as the property is concerned
+        self.closed += 1
+        self.order.append("terminate")
+
     def join(self):
         self.joined += 1
         self.order.append("join")
